@@ -14,6 +14,10 @@ Clause(c) ==
     CASE c = "durable" -> Durable(R.acked, R.inflight, R.obs)
       [] c = "reinit"  -> ReInitOK(R.acked, R.inflight, R.obs, R.seeds, R.obs2)
       [] c = "rebuild" -> R.rebuildError = "" /\ R.indexIds = R.expectIndexIds
+      \* Init with a seed set that one database transaction cannot hold: all or nothing, whatever the crash point
+      [] c = "biginit" -> /\ R.present \in {0, R.total}
+                          /\ (R.initialised => R.present = R.total)
+                          /\ (R.initacked => (R.initialised /\ R.present = R.total))
       [] OTHER -> FALSE
-RecordOK == IF R.judge = "all" THEN \A c \in {"durable", "reinit", "rebuild"} : Clause(c) ELSE Clause(R.judge)
+RecordOK == IF R.judge = "biginit" THEN Clause("biginit") ELSE IF R.judge = "all" THEN \A c \in {"durable", "reinit", "rebuild"} : Clause(c) ELSE Clause(R.judge)
 =============================================================================
